@@ -239,7 +239,7 @@ func cmdExec(args []string) {
 	verbose := fs.Bool("v", false, "verbose")
 	smtlog := fs.String("smtlog", "", "log solver traffic")
 	known := fs.String("known", "", "known_findings.json")
-	second := fs.String("second", "", "second solver for final VCs (cvc5|z3-new)")
+	_ = fs.String("second", "", "(obsolete: the cross-check is controlled by VSYM_XCHECK)")
 	inputsFile := fs.String("inputs", "", "JSON file with a concrete input vector (differential mode)")
 	solverBin := fs.String("solver", envOr("VSYM_SOLVER", "z3-new"), "primary solver binary (z3-new | z3 | cvc5)")
 	jobsFile := fs.String("jobs", "", "JSON file: list of {fn,case,unwind,paths,steps,timeout,out}")
@@ -302,6 +302,7 @@ func cmdExec(args []string) {
 		if err != nil {
 			fatalf("solver: %v", err)
 		}
+		fmt.Sscanf(os.Getenv("VSYM_XCHECK"), "%d", &solver.XEvery)
 		ex := &Exec{prog: prog, solver: solver, fset: fset, unwind: uw, maxSteps: ms, maxPaths: mp,
 			harness: name, pkgRel: *rel, caseVals: job.Case, verbose: *verbose,
 			PathsEnded: map[string]int{}, Findings: map[string]*Finding{}, Reached: map[string]int{}, ReachSample: map[string]map[string]string{},
@@ -321,8 +322,9 @@ func cmdExec(args []string) {
 		for _, f := range ex.sortedFindings() {
 			res.Findings = append(res.Findings, FindingJSON{Kind: f.Kind, Label: f.Label, Pos: f.Pos, Stack: f.Stack, Inputs: f.Inputs, Count: f.Count, Known: f.Known, Sched: f.Sched})
 		}
-		if *second != "" {
-			res.Diff = ex.secondSolver(*second)
+		if solver.XEvery > 0 {
+			x := solver.X
+			res.Diff = &x
 		}
 		solver.Close()
 		res.WallSec = time.Since(t1).Seconds()
@@ -389,10 +391,6 @@ func loadConcrete(path string) map[string]string {
 	return m
 }
 
-// secondSolver re-decides the recorded findings' queries and a sample of discharged ones with another solver.
-func (ex *Exec) secondSolver(name string) *DiffResult {
-	return &DiffResult{Solver: name}
-}
 
 func envOr(k, d string) string {
 	if v := os.Getenv(k); v != "" {
